@@ -62,6 +62,12 @@ class Node:
         if re.match(r'^/chains/main/blocks/[^/]+$', path):
             return ok({'protocol': PROTOCOL, 'chain_id': self.chain_id, 'hash': self.block_hash(),
                        'header': {'level': self.level, 'timestamp': '2026-01-01T00:00:00Z'}, 'metadata': {'level_info': {'level': self.level}}})
+        m = re.match(r'^/chains/main/blocks/[^/]+/context/contracts/(KT1[A-Za-z0-9]+)/script$', path)
+        if m:
+            # every originated address holds the same trivial contract (parameter nat, storage nat)
+            return ok({'code': [{'prim': 'parameter', 'args': [{'prim': 'nat'}]}, {'prim': 'storage', 'args': [{'prim': 'nat'}]},
+                                {'prim': 'code', 'args': [[{'prim': 'CAR'}, {'prim': 'NIL', 'args': [{'prim': 'operation'}]}, {'prim': 'PAIR'}]]}],
+                       'storage': {'int': '0'}})
         m = re.match(r'^/chains/main/blocks/[^/]+/context/contracts/([A-Za-z0-9]+)$', path)
         if m:
             return ok({'balance': '1000000000000', 'counter': str(self.counter if m.group(1) == self.pkh else 0)})
